@@ -80,6 +80,22 @@ def covers_grouped(groups, uniq, B, m):
     return ctx_cache(('coversg', m, tuple(groups)), build)
 
 
+def fits_in_grouped(groups, uniq, B, m):
+    """tier C: some assignment of all items (groups[i] copies of the value uniq[i]) into at most m bins has every bin sum <= B"""
+    n = sum(groups)
+    if m <= 0: return z3.BoolVal(n == 0)
+    def build():
+        alts = []; seen = set()
+        for k in range(1, min(m, n) + 1):
+            for vp in vector_partitions(groups, k):
+                types = tuple(sorted(set(vp)))
+                if types in seen: continue
+                seen.add(types)
+                alts.append(z3.And([zsum(t[i] * uniq[i] for i in range(len(uniq)) if t[i]) <= B for t in types]))
+        return z3.Or(alts) if alts else z3.BoolVal(False)
+    return ctx_cache(('fitsg', m, tuple(groups)), build)
+
+
 def bins_equal_as_multisets(A, Bn):
     """two lists of bins (z3 value terms) are equal as multisets of multisets"""
     if len(A) != len(Bn): return z3.BoolVal(False)
@@ -111,6 +127,11 @@ class Pack:
             for x in xs: c.assume(x <= Bz)
         c.ns['x'] = xs; c.ns['B'] = Bz
         return (idx, bi)
+
+    def fits(self, xs, Bz, m):
+        if self.groups:
+            return fits_in_grouped(self.groups, [xs[sum(self.groups[:g])] for g in range(len(self.groups))], Bz, m)
+        return fits_in(xs, Bz, m)
 
     def binsize(self, c, bi):
         b = self.B if self.B is not None else c.num(bi)
@@ -210,12 +231,12 @@ class Pack:
             bad = []
             for opt in range(1, m):
                 ok = (10 * m <= 17 * opt) if alg in ('ff', 'bf') else ((9 * m <= 11 * opt + 6) if alg == 'ffd' else (9 * m <= 11 * opt + 36))
-                if not ok: bad.append(z3.Not(fits_in(xs, Bz, opt)))
+                if not ok: bad.append(z3.Not(self.fits(xs, Bz, opt)))
             if bad:
                 c.check('bin-count-bound', z3.And(bad), '%d bins used although the optimum violates the documented bound' % m)
         if 'c04' in self.checks and alg == 'bc':
             if m >= 2:
-                c.check('not-minimum', z3.Not(fits_in(xs, Bz, m - 1)), 'bin completion used %d bins but %d suffice' % (m, m - 1))
+                c.check('not-minimum', z3.Not(self.fits(xs, Bz, m - 1)), 'bin completion used %d bins but %d suffice' % (m, m - 1))
             for other in ('ffd', 'bfd'):
                 mo = self.call(c, idx, bi, outputtype=out.BinCount, alg=other)
                 if m > mo:
